@@ -153,6 +153,19 @@ def discharge(obls, timeout_ms=60000, second_solver=False, quick_ms=4000):
     if timeout_ms > quick_ms:
         rest = run(_solve_z3py, "z3-5.1.0", rest, timeout_ms, "all")
     rest = run(_solve_cvc5, "cvc5-1.0.3", rest, min(timeout_ms, 20000), "all")
+    # second chance (robustness on a loaded machine, never a different verdict rule): what is still open is retried with four times
+    # the budget on the rung remembered for it (or recent / relevant / all), on both z3 versions
+    if rest and not os.environ.get("VERIF_NO_SECOND_CHANCE"):
+        for variant_of in (lambda o: (hints.get(o.name) or [None, "recent"])[1], lambda o: "relevant:2", lambda o: "all"):
+            for fn, backend in ((_solve_z3py, "z3-5.1.0"), (_solve_z3cli, "z3-4.8.12")):
+                if not rest:
+                    break
+                byv = {}
+                for o in rest:
+                    byv.setdefault(variant_of(o), []).append(o)
+                rest = []
+                for variant, items in byv.items():
+                    rest += run(fn, backend, items, max(quick_ms * 4, min(timeout_ms, 60000)), variant)
     for o in rest:
         o.verdict = "undecided"
         o.backend = "none"
